@@ -12,7 +12,8 @@ import (
 // entry points delegate to): a parameter is followed to every call site of the helper.
 func checkTrustedMembership(c *Ctx) {
 	fns := c.P.Funcs(Mod + "/" + pkgNetutil)
-	normalised := func(v ssa.Value) (bool, []string) {
+	var normalised func(v ssa.Value) (bool, []string)
+	normalised = func(v ssa.Value) (bool, []string) {
 		var chain []string
 		cur := strip(v)
 		zoneEmpty := false
@@ -20,6 +21,14 @@ func checkTrustedMembership(c *Ctx) {
 			cl := callValue(cur)
 			if cl == nil {
 				break
+			}
+			// a normalising helper of the module (normalizeAddr(ip)): judged by what it returns
+			if g := moduleHelperWithBody(&cl.Call); g != nil {
+				if rets := successReturns(g); len(rets) == 1 && len(rets[0].Results) == 1 {
+					if ok, ch := normalised(rets[0].Results[0]); ok {
+						return true, append(chain, ch...)
+					}
+				}
 			}
 			m := methodName(&cl.Call)
 			chain = append(chain, m)
